@@ -913,6 +913,17 @@ def r22_entry_and_modify(text):
             return text, cnt
 
 
+def r23_hashset_into_iter(text, exprs):
+    """R23 (HashSet form): `for PAT in EXPR` over a HashSet consumed by value -> `for PAT in verif_hashset_into_elems(EXPR)`:
+    the Vec of the set's elements in an unspecified order, each exactly once (contract of `HashSet::into_iter`)."""
+    n = 0
+    for e in exprs:
+        pat = r"(\bfor\s+[^{;]*?\bin\s+)" + re.escape(e) + r"(\s*\{)"
+        text, k = re.subn(pat, lambda mo: mo.group(1) + "verif_hashset_into_elems(" + e + ")" + mo.group(2), text)
+        n += k
+    return text, n
+
+
 def r23_hashmap_into_iter(text, exprs):
     """R23: `for PAT in EXPR` where unit.toml declares EXPR to be a HashMap consumed by value ->
     `for PAT in verif_hashmap_into_entries(EXPR)`: the contract-only helper returns the Vec of the map's entries in an
